@@ -102,7 +102,9 @@ class Harness:
             table, cache = {}, {}
             hyps = [linear_abstract(x, table, cache) for x in hyps]
             goal = linear_abstract(goal, table, cache)
-            if neg_margin is not None:
+            if isinstance(neg_margin, (list, tuple)):
+                neg_margin = [linear_abstract(x, table, cache) for x in neg_margin]
+            elif neg_margin is not None:
                 neg_margin = linear_abstract(neg_margin, table, cache)
             self._keep = getattr(self, '_keep', []) + [table]
         ob = Ob(name, hyps, goal, 'prove', timeout, replay, neg_margin, key, group, tfvar)
@@ -115,6 +117,16 @@ class Harness:
             ob.fut = self.pool.submit(_solve.solve, _smt2(hyps, ob.neg), timeout, True, strategies)
         self.obs.append(ob)
         return ob
+
+    def chain(self, name, hyps, lemmas, **kw):
+        """prove the lemmas in order, each under hyps + the earlier lemmas; returns (hyps + all lemmas, lemma obligations).
+        Obligations proved from the returned hypotheses must pass depends=<the lemma obligations>."""
+        hy, obs = list(hyps), []
+        kw.setdefault('strategies', ('default', 'nlsat'))
+        for nm, f in lemmas:
+            obs.append(self.prove('%s/lemma:%s' % (name, nm), hy, f, depends=list(obs), **kw))
+            hy = hy + [f]
+        return hy, obs
 
     def prove_eqs(self, name, hyps, lhs, rhs, **kw):
         """componentwise equality obligations; neg_margin asks for a witness with visible margin"""
@@ -308,9 +320,12 @@ class Harness:
         """candidate counterexample: replay on the real code; only reproducing ones are violations"""
         model = ob.res.get('model') or {}
         if ob.neg_margin is not None and ob.kind != 'cert':
-            r2 = _solve.solve(_smt2(ob.hyps, ob.neg_margin), min(ob.timeout, 5), True, ('default',))
-            if r2['result'] == 'sat' and r2.get('model'):
-                model = r2['model']
+            # prefer a witness with a visible margin (graded: the first satisfiable of a list of decreasing margins)
+            for nm_ in (ob.neg_margin if isinstance(ob.neg_margin, (list, tuple)) else [ob.neg_margin]):
+                r2 = _solve.solve(_smt2(ob.hyps, nm_), min(ob.timeout, 5), True, ('default',))
+                if r2['result'] == 'sat' and r2.get('model'):
+                    model = r2['model']
+                    break
         if ob.replay is None:
             ob.status = 'sat-unreplayed'
             ob.detail = 'candidate counterexample, no replay available -> inconclusive'
